@@ -640,6 +640,99 @@ fn child_pass(env: &Env, report: &mut Report, spec: &str, params: &Params) {
     }
 }
 
+/// Partially mined twins (meaningful on Eaglesong): the peer, proven on the main chain, moves to
+/// a self-consistent chain (own MMR, chain roots, parent hashes) in which exactly one SECTION of
+/// the proof it will send consists of headers that fail PoW - the reorg section, the sampled
+/// section, or the last-N section (sampled and short path) - while the announced tip and every
+/// other header are mined. No single-site mutant gets there: altering a nonce changes the hash
+/// and breaks the continuity checks first. The answer must leave the trusted view untouched; the
+/// fully mined twin of the same shape must be accepted (control).
+fn partial_pow_pass(env: &Env, report: &mut Report, spec: &str, params: &Params) {
+    use crate::verif::driver::World;
+    use crate::verif::scen::{self, advance_until};
+    let main = scen::std_chain(env, params.main_len, params.epoch_len);
+    let h1 = params.h1;
+    let n = params.last_n;
+    // (label, fork point, tip, unmined block range)
+    let shapes: Vec<(&str, u64, u64, (u64, u64))> = vec![
+        // fork within last-N: the reorg section [h1-n, h1) has its blocks after the fork point unmined
+        ("reorg-section", h1 - n, h1 + n + 6, (h1 - n + 1, h1 - 1)),
+        // sampled path: everything between the proven header and the last-N section unmined
+        ("sampled-section", h1, h1 + n + 10, (h1 + 1, h1 + 9)),
+        // sampled path: the last-N section (but the tip) unmined
+        ("last-n-section/sampled-path", h1, h1 + n + 10, (h1 + 10, h1 + n + 9)),
+        // short path (no samples): the blocks between the proven header and the tip unmined
+        ("last-n-section/short-path", h1, h1 + n, (h1 + 1, h1 + n - 1)),
+    ];
+    let mut old: Option<Sim> = None;
+    for (label, fork_at, tip, (u0, u1)) in shapes {
+        for mined_control in [true, false] {
+            let mut twin = main.fork(fork_at, 7171);
+            for b in (fork_at + 1)..=tip {
+                twin.mine = mined_control || b < u0 || b > u1;
+                scen::extend_chain(&mut twin, &env.scripts, b, &[]);
+            }
+            twin.mine = true;
+            let mut world = World::new(vec![main.clone(), twin], 4);
+            world.add_peer(1, 0, h1);
+            let cfg = crate::verif::client::ClientCfg { last_n: n, mmr_activated_epoch: params.mmr_epoch, ..scen::default_cfg() };
+            crate::verif::client::set_now(crate::verif::world::BASE_TS + 1_000_000);
+            let mut sim = match old.take() {
+                Some(o) => Sim::recycle(o, cfg, world),
+                None => scen::new_sim(env, cfg, world),
+            };
+            crate::verif_hooks::rng_reset(params.seed);
+            if !scen::prove_peer(&mut sim, 1) {
+                report.violation("harness/partial-pow/peer-not-proven".to_owned(), format!("[{}] the peer could not be proven on the main chain", label), json!({"spec": spec}));
+                old = Some(sim);
+                continue;
+            }
+            sim.queue.clear();
+            sim.set_view(1, 1, tip, true);
+            sim.deliver(0);
+            sim.cm().tick_lc(0);
+            sim.pump_out();
+            if !advance_until(&mut sim, |m| kind_of(m) == "SendLastStateProof", 0, 10) {
+                // (the announcement itself was refused: nothing to decide)
+                report.count("partial_pow/no_proof_requested", 1);
+                old = Some(sim);
+                continue;
+            }
+            let before = trusted_view(&sim);
+            let r = crate::verif::props::panics::catch(|| sim.deliver(0));
+            report.count("transitions", 1);
+            report.count("partial_pow/deliveries", 1);
+            if let Err(p) = r {
+                if !p.msg.contains("long fork detected") {
+                    report.violation(format!("abort/{}", p.site()), format!("{} [partial PoW, {}]", p.describe(), label), json!({"scenario": "partial-pow", "spec": spec, "shape": label}));
+                }
+                continue;
+            }
+            let after = trusted_view(&sim);
+            if mined_control {
+                if after == before {
+                    report.violation(
+                        format!("partial-pow/control-not-accepted/{}", label),
+                        format!("the fully mined twin ({}) was not accepted: the pass would be vacuous ({:?})", label, sim.bans()),
+                        json!({"scenario": "partial-pow", "spec": spec, "shape": label}),
+                    );
+                } else {
+                    report.count("partial_pow/controls_accepted", 1);
+                }
+            } else if after != before {
+                report.violation(
+                    format!("mutant-changed-trusted-state/partial-pow/{}", label),
+                    format!("a self-consistent proof whose {} consists of headers that fail PoW (blocks {}..={}) was accepted: trusted view changed", label, u0, u1),
+                    json!({"scenario": "partial-pow", "spec": spec, "params": format!("{:?}", params), "shape": label, "unmined_blocks": [u0, u1], "view_before": before, "view_after": after}),
+                );
+            } else {
+                report.count("partial_pow/forged_rejected", 1);
+            }
+            old = Some(sim);
+        }
+    }
+}
+
 const PROOF_SCNS: [Scn; 5] = [
     Scn::FirstProof,
     Scn::NewProofSampled,
@@ -741,6 +834,9 @@ pub(crate) fn run(opts: &Opts, report: &mut Report) {
             let (spec, params) = &grid[item - sweep_items - grid_items];
             let env = Env::new(spec);
             child_pass(&env, report, spec, params);
+            if spec.contains("eaglesong") {
+                partial_pow_pass(&env, report, spec, params);
+            }
             return;
         }
         if item >= sweep_items {
